@@ -416,17 +416,45 @@ class NPFacade(types.ModuleType):
             return _boolify(_map(sym_isnan, x))
         return _np.isnan(x)
 
-    @staticmethod
-    def maximum(a, b):
-        if _has_sym(a) or _has_sym(b):
-            return _map2(core.sym_max, a, b)
-        return _np.maximum(a, b)
+    class _MaxMin:
+        """np.maximum / np.minimum incl. .reduce on proxies (ite terms, no forking)."""
+
+        def __init__(self, f, real):
+            self.f, self.real = f, real
+
+        def __call__(self, a, b):
+            if _has_sym(a) or _has_sym(b):
+                return _map2(self.f, a, b)
+            return self.real(_tofloat(a) if isinstance(a, _np.ndarray) else a, _tofloat(b) if isinstance(b, _np.ndarray) else b)
+
+        def reduce(self, arrs, axis=0, **kw):
+            if not _has_sym(arrs):
+                return self.real.reduce([_tofloat(_np.asarray(x)) for x in arrs] if isinstance(arrs, (list, tuple)) else _tofloat(arrs), axis=axis, **kw)
+            if axis != 0:
+                raise Unsupported('maximum.reduce with axis != 0 on symbolic data')
+            it = list(arrs)
+            r = it[0]
+            for x in it[1:]:
+                r = _map2(self.f, r, x)
+            return r
+
+    maximum = _MaxMin(core.sym_max, _np.maximum)
+    minimum = _MaxMin(core.sym_min, _np.minimum)
 
     @staticmethod
-    def minimum(a, b):
-        if _has_sym(a) or _has_sym(b):
-            return _map2(core.sym_min, a, b)
-        return _np.minimum(a, b)
+    def clip(a, a_min=None, a_max=None, **kw):
+        if kw.get('min') is not None:
+            a_min = kw['min']
+        if kw.get('max') is not None:
+            a_max = kw['max']
+        if not _has_sym(a):
+            return _np.clip(_tofloat(a) if isinstance(a, _np.ndarray) else a, a_min, a_max)
+        r = a
+        if a_min is not None:
+            r = _map2(core.sym_max, r, a_min)
+        if a_max is not None:
+            r = _map2(core.sym_min, r, a_max)
+        return r
 
     @staticmethod
     def amax(a, axis=None, **kw):
